@@ -77,6 +77,9 @@ pub async fn settle_n(n: usize) {
   }
 }
 
+/// Virtual seconds a single scenario may take.
+pub const VIRTUAL_BUDGET_S: u64 = 4 * 3600;
+
 pub struct WorldResult<R> {
   pub result: Option<R>,
   /// panics seen on this thread (any task) during the run
@@ -97,8 +100,20 @@ where
     .rng_seed(tokio::runtime::RngSeed::from_bytes(&seed.to_le_bytes()))
     .build()
     .expect("runtime");
-  let result = match std::panic::catch_unwind(std::panic::AssertUnwindSafe(|| rt.block_on(f()))) {
-    Ok(r) => Some(r),
+  // every scenario is bounded in virtual time: a scenario that never finishes (a call blocked for
+  // good while timers keep firing) must not hang the explorer
+  let result = match std::panic::catch_unwind(std::panic::AssertUnwindSafe(|| {
+    rt.block_on(async {
+      match tokio::time::timeout(Duration::from_secs(VIRTUAL_BUDGET_S), f()).await {
+        Ok(r) => Some(r),
+        Err(_) => {
+          note_panic("world: scenario exceeded its virtual-time budget (something is blocked for good) @ world-budget");
+          None
+        }
+      }
+    })
+  })) {
+    Ok(r) => r,
     Err(_) => None,
   };
   let alive = rt.metrics().num_alive_tasks();
